@@ -4,6 +4,7 @@ from checks import common, sched, run_prefix, builder_defaults, sched_worlds
 
 def body(chk):
     builder_defaults.defaults(chk, 'C06')
+    builder_defaults.setters(chk, 'C06', which=('max_concurrent_scenarios',))
     run_prefix.obligations(chk, 'C06', which=('concurrency',))
     sched.get_obligations(chk, 'C06')
     sched_worlds.run(chk, 'C06')
